@@ -110,6 +110,18 @@ CHECKS = {
         "Faults are injected at OptimizationGroup.calculate; max_nfev 3 (quick) / 5 (thorough).",
         "DESIGN.md section 4 / C15",
     ),
+    "C13": (
+        "exploration",
+        "E1",
+        "complete t-way enumeration of the scheme-feature space x methods x max_nfev; every statistic of every successful "
+        "result recomputed from the result datasets, a fresh re-evaluation and the independent reference",
+        "Every reported statistic is tied to the others and to the data on every enumerated fit: residual and clp counts "
+        "against the reference, chi-square from the datasets and penalties, cost against a fresh objective evaluation and "
+        "the numpy reference, dof/reduced chi2/RMSE formulae, per-dataset RMSEs, covariance symmetric PSD pseudo-inverse.",
+        "Harness megacomplexes; fits that do not return (scipy nnls / lstsq on overflowing input) are killed by a "
+        "watchdog and counted as out of domain.",
+        "DESIGN.md section 4 / C13",
+    ),
 }
 
 PENDING_REASON = "check under construction in this round - not claimed until its check runs clean on the unchanged tree"
@@ -150,7 +162,7 @@ def main():
             "add_only": True,
         },
         "engines": [
-            {"name": "E1", "path": "vf/core.py", "serves_properties": ["C02", "C03", "C08", "C09", "C11"], "kind_free_text": "bounded exhaustive input-space enumeration with reference oracles, 16 workers"},
+            {"name": "E1", "path": "vf/core.py", "serves_properties": ["C02", "C03", "C08", "C09", "C11", "C13"], "kind_free_text": "bounded exhaustive input-space enumeration with reference oracles, 16 workers"},
             {"name": "E2", "path": "vf/explore.py", "serves_properties": ["C10", "C12", "C19"], "kind_free_text": "explicit-state BFS over event histories replayed on fresh real objects, full-state digests"},
             {"name": "E3", "path": "vf/checks/c15.py", "serves_properties": ["C15"], "kind_free_text": "deviation-bounded fault enumerator (all single / pairs of deviations from the fault-free environment), forked watchdog"},
             {"name": "E5", "path": "vf/prange.py", "serves_properties": ["C10"], "kind_free_text": "partial-order (conflict relation) exploration of numba prange kernels on py_func with recording array proxies"},
